@@ -54,6 +54,7 @@ var (
 	reFunc = regexp.MustCompile(`^func\s+([A-Za-z0-9_.]+)\s*\(([^)]*)\)\s*(?:\(([^)]*)\))?\s*(.*)$`)
 	reTag  = regexp.MustCompile(`\[(C[0-9]{2,3})\]`)
 	reLoop = regexp.MustCompile(`^loop\s+([0-9]+)`)
+	reClosure = regexp.MustCompile(`^closure\s+([0-9]+)`)
 	reAt   = regexp.MustCompile(`^at\s+call\s+([A-Za-z0-9_./#]+)`)
 	reCall = regexp.MustCompile(`^call\s+([A-Za-z0-9_.]+)#([0-9]+)(?:\s+loop\s+([0-9]+))?`)
 )
@@ -178,6 +179,13 @@ func parseContractFile(path, pkgDir string) ([]*FuncContract, error) {
 			}
 			continue
 		}
+		if m := reClosure.FindStringSubmatch(line); m != nil {
+			curLoop = "closure#" + m[1]
+			if cur.Loops[curLoop] == nil {
+				cur.Loops[curLoop] = &LoopSpec{}
+			}
+			continue
+		}
 		if m := reAt.FindStringSubmatch(line); m != nil {
 			curLoop = "@" + m[1]
 			if cur.Loops[curLoop] == nil {
@@ -202,7 +210,7 @@ func parseContractFile(path, pkgDir string) ([]*FuncContract, error) {
 			kw, rest = line[:i], strings.TrimSpace(line[i:])
 		}
 		switch kw {
-		case "assert":
+		case "assert", "guarantees":
 			kw = "invariant" // site assertions are stored like invariants of the pseudo-loop "@<site>"
 			pendKind, pend, pendLine = kw, rest, ln
 		case "requires", "ensures", "invariant", "decreases":
